@@ -375,15 +375,19 @@ func (e *Env) mysqlSpaces(thorough bool) []*Space {
 	dbBin := e.dec("mysql.Handler.ProxyDatabaseConnection[execute response]", sess(func(in []byte) []step {
 		return []step{{false, sh.buf}, {true, hs.buf}, {true, prepQ.buf}, {false, prepResp.buf}, {true, exec.buf}, {false, in}}
 	}))
-	l = 4
+	l = 3
 	if thorough {
 		l = 5
 	}
 	out = append(out, e.sigma("mysql", "mysql-packets", pktA, l, []*Decoder{readDec}, nil, nil)...)
 	// sessions: L=3 in both tiers (a session costs about a millisecond: every packet allocates
 	// what its 3-byte length says); thorough adds the truncation product of the fields spaces
-	out = append(out, e.sigma("mysql", "mysql-session-client", pktA, 3, []*Decoder{cliFirst, cliCmd, cliExec}, nil, nil)...)
-	out = append(out, e.sigma("mysql", "mysql-session-db", pktA, 3, []*Decoder{dbFirst, dbText, dbPrep, dbBin}, nil, nil)...)
+	sl := 2 // quick: pairs of packets per session; thorough: triples
+	if thorough {
+		sl = 3
+	}
+	out = append(out, e.sigma("mysql", "mysql-session-client", pktA, sl, []*Decoder{cliFirst, cliCmd, cliExec}, nil, nil)...)
+	out = append(out, e.sigma("mysql", "mysql-session-db", pktA, sl, []*Decoder{dbFirst, dbText, dbPrep, dbBin}, nil, nil)...)
 
 	cliSeq := le()
 	myCommand(cliSeq, "ComQuery", mysql.CommandQuery, []byte("insert into t (id, s, b, tk) values (1, 'a', 'b', 'c')"))
